@@ -114,6 +114,29 @@ def replay (p : Params) : List String → List St → Nat → Bool → Except Na
         | [] => .error k
         | S' => replay p ts S' (k + 1) hangOK
 
+def mpcName : MPc Msg Nat → String
+  | .start => "start" | .uRecvPending => "uRecvPending" | .streamCall _ => "streamCall"
+  | .streamPending _ => "streamPending" | .uSendCall _ => "uSendCall" | .uSendPending => "uSendPending"
+  | .uCloseErr _ => "uCloseErr" | .uCloseSend => "uCloseSend" | .loop => "loop" | .loopCloseSend => "loopCloseSend"
+  | .deferClose _ => "deferClose" | .deferCancel _ => "deferCancel" | .deferWait _ => "deferWait" | .done _ => "done"
+
+/-- Program point of Forward's main goroutine (model pc) at which the FIRST external cancellation / deadline of
+    the observed run struck: the τ-quiescent states of the model after the events logged before `cx:` (the harness
+    cancels only when the real goroutines have settled, so main has taken every internal step it could).
+    Only used for the coverage histogram (`b=…@<pc>`): fault injection is enumerated over program points. -/
+def ctxPoint (p : Params) : List String → List St → String
+  | [], _ => ""
+  | t :: ts, S =>
+    if t.startsWith "cx:" then
+      let q := (tauClosure p 6 S).filter (fun s => taus.all (fun l => (step p s l).isNone))
+      "@" ++ "|".intercalate ((q.map (fun s => mpcName s.main)).eraseDups)
+    else match parseTok t with
+      | none => ctxPoint p ts S
+      | some l =>
+        match stepSet p S l with
+        | [] => ""
+        | S' => ctxPoint p ts S'
+
 def flag (kv : String) (k : String) : Option Bool :=
   if kv = k ++ "=1" then some true else if kv = k ++ "=0" then some false else none
 
@@ -214,7 +237,7 @@ def judgeFwd (fs : List String) (out : List String) : String :=
             let tr := o.labels
             let nt := if tr.length ≥ 8 then " nt" else ""
             let h := if o.hang then "-hang" else ""
-            s!"OK{nt} b={kindName p}-{retBranch (returnedOf tr)}{h}"
+            s!"OK{nt} b={kindName p}-{retBranch (returnedOf tr)}{h}{ctxPoint p out [init Msg Nat]}"
 
 def splitKV (s : String) : String × String :=
   match s.splitOn "=" with
